@@ -1059,6 +1059,19 @@ def make_ops(rng, params, k, mode):
             if mode == "F":
                 vals = [rng.choice([-1.0, -0.5, 0.5, 1.0, 1.5, 0.25, 2.0]) for _ in labels]
             ops.append(["set", labels, vals, "np" if rng.random() < 0.8 else "list"])
+            if rng.random() < 0.3:
+                # the optimiser's finite-difference step: the same vector again with one (or every) entry moved by a
+                # relative 2^-26 / an absolute 2^-30 (seeded change C12-1: the fixpoint loop stopped on np.isclose, so a
+                # small step left expression parameters that refer to later-declared ones stale)
+                step = rng.choice(["rel", "abs"])
+                which = rng.randrange(len(vals)) if rng.random() < 0.6 else None
+                vals2 = []
+                for i, v in enumerate(vals):
+                    if which is None or i == which:
+                        vals2.append(v * (1.0 + 2.0 ** -26) if (step == "rel" and v != 0) else v + 2.0 ** -30)
+                    else:
+                        vals2.append(v)
+                ops.append(["set", labels, vals2, "np"])
         elif r < 0.65:
             ops.append(["copy"])
         elif r < 0.72:
